@@ -29,7 +29,10 @@ class Model:
         self.ctx, self.p = ctx, p
         self.scripted = p["gen"] == "scripted"
         self.rng = Scripted() if self.scripted else np.random.default_rng(p["seed"])
+        c04.sibling_first(ctx, p["kind"], p)
         self.scr = c04.make(p["kind"], p, self.rng)
+        # a twin with the same seed that is never read or printed, only stepped: reading must not matter
+        self.twin = None if self.scripted else c04.make(p["kind"], p, np.random.default_rng(p["seed"]))
         self.N = p["nx"]
         self.wshape = self.scr._scrn.shape
         if self.scripted:
@@ -62,6 +65,11 @@ class Model:
             self.rng.feed(bb)
         ret = self.scr.add_row()
         self.adds += 1
+        if self.twin is not None:
+            self.ctx.equal(np.asarray(self.twin.add_row()), np.asarray(ret), "step %d: a screen that was read / printed between steps returns a different screen from add_row() than a twin with the same seed that was only stepped" % self.adds)
+        self.held.append((ret, np.array(ret, copy=True)))
+        if len(self.held) > 6:
+            self.held.pop(0)
         cur = np.array(self.scr.scrn, copy=True)
         self.check_static()
         self.ctx.equal(np.asarray(ret), cur, "add_row() return value differs from .scrn")
@@ -122,7 +130,8 @@ def screen_params(draw):
     kind = draw(st.sampled_from(["vk", "fried"]))
     ps = draw(st.one_of(gen.logfloat(0.02, 0.5), st.sampled_from([1, 2])))
     p = {"kind": kind, "nx": draw(st.integers(2, 14)), "ps": ps, "r0": draw(gen.logfloat(0.05, 1.0)), "L0": ps * draw(c04.RATIO),
-         "gen": draw(st.sampled_from(["scripted", "scripted", "real"])), "seed": draw(st.integers(0, 2**32 - 1))}
+         "gen": draw(st.sampled_from(["scripted", "scripted", "real"])), "seed": draw(st.integers(0, 2**32 - 1)),
+         "sib": draw(st.sampled_from([None, None, None, "r0,L0", "ps,r0,L0"])), "sibk": draw(st.sampled_from([2.0, 0.5]))}
     if kind == "vk":
         p["ncol"] = draw(st.integers(1, min(3, p["nx"])))
     else:
@@ -195,6 +204,7 @@ def stab_cases(draw):
 def stab_body(ctx, p):
     from scipy import linalg
     rng = Scripted()
+    c04.sibling_first(ctx, "vk", p)
     try:
         scr = c04.make("vk", p, rng)
     except (linalg.LinAlgError, np.linalg.LinAlgError):
